@@ -238,5 +238,6 @@ MUTANTS = [
     M("index-not-rindex", UW, "UrwidImageCanvas.content", "cell[: cell.rindex(b\"m\") + 1]", "cell[: cell.index(b\"m\") + 1]", {"R2"}),
     M("swap-centre-split", UW, "UrwidImageCanvas.content", "                    pad_left = pad // 2\n                    pad_right = pad - pad_left", "                    pad_right = pad // 2\n                    pad_left = pad - pad_right", {"R3"}),
     M("live-image-size", UW, "UrwidImageCanvas.content", "        image_size = self._ti_image_size\n", "        image_size = self.widget_info[0]._ti_image.rendered_size\n", {"R3"}),
+    M("end-index-is-count", UW, "UrwidImageCanvas.content", "self._ti_lines[trim_top : -trim_bottom or None]", "self._ti_lines[trim_top:visible_rows]", {"R2"}, count=3),
     M("twin-rename", UW, "UrwidImage.rows", "n_rows", "nrows", twin=True, count=0),
 ]
